@@ -44,6 +44,11 @@ class BaseGotranODECodePrinter(StrPrinter):
             return f"Not(Eq({lhs}, {rhs}))"
         return f"{relop}({lhs}, {rhs})"
 
+    def _print_ITE(self, expr):
+        # sympy turns a relational with a Conditional operand into ITE(c, a, b)
+        c, a, b = (self._print(arg) for arg in expr.args)
+        return f"Or(And({c}, {a}), And(Not({c}), {b}))"
+
     def _print_Not(self, expr):
         return f"Not({self._print(expr.args[0])})"
 
@@ -72,6 +77,25 @@ class BaseGotranODECodePrinter(StrPrinter):
         # condition (Conditional(Eq(h, a), a, m) -> Conditional(Eq(a, h), h, m)), which keeps
         # the value but changes the derivatives (Rush-Larsen linearization, Jacobian) of the
         # reloaded model
+        # A condition that sympy has evaluated to false can never be taken, and one that
+        # it has evaluated to true ends the conditional (the grammar has no boolean literals)
+        from sympy.logic.boolalg import ITE, simplify_logic
+
+        pairs = []
+        for e, c in expr.args:
+            if c.has(ITE):
+                c = simplify_logic(c)
+            if c == False:  # noqa: E712
+                continue
+            pairs.append((e, c))
+            if c == True:  # noqa: E712
+                break
+        if len(pairs) == 1 and pairs[0][1] == True:  # noqa: E712
+            return f"({self._print(pairs[0][0])})"
+        if tuple(pairs) != tuple((e, c) for e, c in expr.args):
+            import sympy
+
+            expr = sympy.Piecewise(*pairs, evaluate=False)
         conds, exprs = _print_Piecewise(self, expr, simplify=False)
 
         result = []
